@@ -69,6 +69,10 @@ def run(raw, workdir):
         pn[key] = val
     sensors = {k: {r: G.to_sympy(e, syms) for r, e in rd.items()} for k, rd in raw["sensors"].items()}
     sn = {k: dict(rd) for k, rd in raw["sensor_noise"].items()}
+    if raw.get("reading_keys") == "symbol":
+        # the project's own examples key readings (and their noise) by Symbol rather than by str
+        sensors = {k: {Symbol(r): e for r, e in rd.items()} for k, rd in sensors.items()}
+        sn = {k: {Symbol(r): v for r, v in rd.items()} for k, rd in sn.items()}
     cfg = python.Config(innovation_filtering=None)
     vf = raw.get("valid_first")
     if vf:
